@@ -1824,3 +1824,20 @@ func TestVerifC11VMSelfTest(t *testing.T) {
 	c11vmExpectInvalid(t, "infinite loop", lvm, asm.Insns{asm.MakeInsn(asm.MovImm64, asm.R0, 0, 0, 0),
 		asm.MakeInsn(asm.JumpEqImm64, asm.R0, 0, -1, 0), asm.MakeInsn(asm.Exit, 0, 0, 0, 0)}, "step budget")
 }
+
+// Once a finding is no longer listed as open (repaired in /repo), its confirmation scenario is
+// part of the unit's normal run; while it is listed as open the driver runs the Confirm test by
+// name instead and these skip.
+func TestVerifC11RegressionProtocolNames(t *testing.T) {
+	if ev.Known(c11SigProtoName) {
+		t.Skip("listed as an open known finding")
+	}
+	TestVerifC11ConfirmProtocolNames(t)
+}
+
+func TestVerifC11RegressionDeadExitStub(t *testing.T) {
+	if ev.Known(c11SigDeadExit) {
+		t.Skip("listed as an open known finding")
+	}
+	TestVerifC11ConfirmDeadExitStub(t)
+}
